@@ -278,6 +278,12 @@ func (r *Run) Finish() int {
 		}
 	}
 	cov["verdict"] = verdict
+	if os.Getenv("VERIF_CHILD") != "" {
+		// child process of another check: report on stdout, leave the evidence file to the parent
+		b, _ := json.Marshal(map[string]any{"evaluations": r.evals, "distinct_nontrivial": dn, "violations": r.violations, "counters": r.counters, "extra": r.extra})
+		fmt.Printf("CHILD-SUMMARY %s\n", b)
+		return code
+	}
 	if r.Only == "" || os.Getenv("VERIF_WRITE_EVIDENCE") == "1" {
 		dir := filepath.Join(Root, "evidence")
 		os.MkdirAll(dir, 0o755)
